@@ -252,6 +252,16 @@ func (h *JSONFormatterHook) PostFormat(entry *log.Entry, formatted *bytes.Buffer
 	if err != nil {
 		return err
 	}
+	// "integrity" and "chain":"new" are what this hook adds after the computation and what the parser takes out
+	// before it: a field of the entry that looks the same is kept under another name
+	if value, ok := parsed[IntegrityKey]; ok {
+		delete(parsed, IntegrityKey)
+		parsed[freeFieldName(parsed, IntegrityKey)] = value
+	}
+	if value, ok := parsed[AuditLogChainKey]; ok && value == NewAuditLogChainValue {
+		delete(parsed, AuditLogChainKey)
+		parsed[freeFieldName(parsed, AuditLogChainKey)] = value
+	}
 	logEntryDataBytes, err := convertMapToBytes(parsed)
 	if err != nil {
 		return err
@@ -272,6 +282,18 @@ func (h *JSONFormatterHook) PostFormat(entry *log.Entry, formatted *bytes.Buffer
 	formatted.Write(newFormatted)
 	formatted.WriteString("\n")
 	return nil
+}
+
+// freeFieldName returns a name for a field of the entry that clashes with a key of the hook,
+// the way logrus renames fields that clash with its own keys
+func freeFieldName(parsed map[string]interface{}, key string) string {
+	name := "fields." + key
+	for {
+		if _, taken := parsed[name]; !taken {
+			return name
+		}
+		name = "fields." + name
+	}
 }
 
 // SetCryptoKey sets crypto key of this crypto hook
